@@ -47,6 +47,10 @@ def gen_cases(rng, tier):
     cases += [dict(n=2, lower=1.0, upper=0.25, gl=None, gu=-1.125), dict(n=2, lower=1.0, upper=0.25, gl=-1.125, gu=None),
               dict(n=5, lower=0.0, upper=1.0, gl=0.3, gu=0.3), dict(n=5, lower=0.0, upper=1.0, gl=0.05, gu=0.6),
               dict(n=5, lower=1.0, upper=0.0, gl=-0.3, gu=-0.05), dict(n=4, lower=0.0, upper=1.0, gl=0.0, gu=0.4)]
+    # two end gradients of very different size whose ARITHMETIC mean asks for a decreased spacing while their geometric mean does not
+    # (the branch guard compares the arithmetic mean; added because of seed C09-11)
+    cases += [dict(n=7, lower=0.0, upper=1.0, gl=1.0, gu=1e-4), dict(n=10, lower=0.0, upper=1.0, gl=1e-4, gu=1.0),
+              dict(n=10, lower=1.0, upper=0.0, gl=-1.0, gu=-1e-4), dict(n=8, lower=-0.5, upper=0.5, gl=0.6, gu=0.002)]
     return cases
 
 
